@@ -144,8 +144,8 @@ func c07cli(c *h.Ctx) {
 	}
 	rec(nil)
 	type job struct {
-		seq   []string
-		form  string
+		seq    []string
+		form   string
 		dashes bool
 	}
 	var jobs []job
